@@ -596,6 +596,24 @@ def main(tier, seed):
             traces += run_messages(topo, [[c + (255,) for c in grp]], "random", random.Random(sd), replies="one",
                                    meta=dict(meta, cache="cold", rng=sd, burst=len(grp)))
             chk.case(("T", tno, "burst", tuple(grp)), nontrivial=True)
+        # (ii'') concurrent discoveries of the SAME network: two stations (of one LAN where the topology has two) ask for a
+        #        path at the same moment -- every answer is heard by both, whatever is parked must go out once
+        remote = [c for c in allc if c[1] in ("rs", "rb")]
+        pairs = []
+        for c1 in remote:
+            for c2 in remote:
+                if c1[0] < c2[0] and c1[2] == c2[2]:
+                    same_lan = st_info(topo, c1[0])[0] == st_info(topo, c2[0])[0]
+                    pairs.append((0 if same_lan else 1, c1, c2))
+        trng.shuffle(pairs)
+        pairs.sort(key=lambda x: x[0])
+        for _, c1, c2 in pairs[:(10 if thorough else 4)]:
+            if LIVELOCKS[0] >= MAX_LIVELOCKS:
+                break
+            sd = trng.randrange(1 << 30)
+            traces += run_messages(topo, [[c1 + (255,), c2 + (255,)], [c1 + (255,)]], "random", random.Random(sd), replies="one",
+                                   meta=dict(meta, cache="cold", rng=sd, burst=2, same_net=True))
+            chk.case(("T", tno, "same-net", c1, c2), nontrivial=True)
         # (iii) injected low hop counts
         low = [(s, k, dnet, dmac, h) for (s, k, dnet, dmac) in trng.sample(allc, min(len(allc), 12 if thorough else 6))
                if k in ("gb", "rs", "rb") for h in (0, 1, 2)]
